@@ -72,6 +72,7 @@ var (
 	fRoot    = flag.String("root", "", "root of the (scratch copy of the) tree under test: corpus is read from <root>/testdata/input")
 	fSeed    = flag.Uint64("seed", 1, "VERIF_SEED")
 	fCorrupt = flag.Int("corrupt", 200, "number of seeded corruptions in the pool")
+	fChurn   = flag.Int("churn", 200, "number of identifier-churn inputs in the pool")
 	fW       = flag.Int("w", 0, "worker index")
 	fOf      = flag.Int("of", 1, "number of workers")
 	fFrom    = flag.Int64("from", 0, "first run index (work: index = from + w + k*of)")
@@ -130,7 +131,7 @@ func setupPool() error {
 	if *fRoot == "" {
 		return fmt.Errorf("need -root")
 	}
-	return buildPool(*fRoot, *fSeed, *fCorrupt)
+	return buildPool(*fRoot, *fSeed, *fCorrupt, *fChurn)
 }
 
 func setupRefs() (*refTable, error) {
@@ -178,13 +179,7 @@ func modeInfo() error {
 	}
 	byOrigin := map[string]int{}
 	for _, in := range pool.inputs {
-		o := in.origin
-		if strings.HasPrefix(o, "corrupt:") {
-			o = "corrupt"
-		} else if o != "edge" {
-			o = "corpus"
-		}
-		byOrigin[o]++
+		byOrigin[classNames[in.class]]++
 	}
 	return writeJSON(*fOut, map[string]any{"inputs": len(pool.inputs), "by_origin": byOrigin, "ops": len(pool.ops), "paths": len(pool.paths),
 		"sites": rt.NumSites, "fingerprint": fmt.Sprintf("%016x", poolFingerprint())})
@@ -220,7 +215,11 @@ func modeRefMerge() error {
 		f := failure{Oracle: "O2", Key: pool.ops[c.idx].String(), Got: c.b, Want: c.a,
 			Detail: fmt.Sprintf("two solo executions of the same call in two fresh processes disagree (slice %d/%d reverse=%v vs slice %d/%d reverse=%v)",
 				c.sliceA, c.ofA, c.revA, c.sliceB, c.ofB, c.revB)}
-		st.addFailure(-1, f, refSliceCase(c.sliceB, c.ofB, c.revB, c.idx), t, false)
+		// which of the two executions was influenced by its history is not known here: both
+		// slices are exported, the driver keeps the one(s) that reproduce against fresh references
+		st.addFailure(-1, f, refSliceCase(c.sliceB, c.ofB, c.revB, c.idx), t, true)
+		f.Got, f.Want = f.Want, f.Got
+		st.addFailure(-1, f, refSliceCase(c.sliceA, c.ofA, c.revA, c.idx), t, true)
 	}
 	st.RefChecked = len(t.e)
 	st.RefTableHash = tableHash(t)
@@ -279,7 +278,7 @@ func verifySlice(st *stats, refs *refTable, slice, of int, reverse bool, when st
 			f := failure{Oracle: "O2", Task: 0, Op: 0, Key: k.String(), Got: e.hash, Want: refs.e[j].hash,
 				Detail: "the same call executed solo " + when + " differs from the same call executed solo in a fresh process"}
 			// replay: the slice as one single-task run, in the order it was executed
-			st.addFailure(-1, f, refSliceCase(slice, of, reverse, j), refs, false)
+			st.addFailure(-1, f, refSliceCase(slice, of, reverse, j), refs, true)
 		}
 	}
 }
@@ -595,8 +594,11 @@ func modePairs() error {
 	return writeJSON(*fOut, st)
 }
 
-// modePreempt: single-preemption sweep.  For a pair (A, B): for every yield i of A, run A
-// up to its i-th yield, run B to completion, finish A.
+// modePreempt: single-preemption sweep.  For a pair (A, B) and a yield i of A: run A up to
+// its i-th yield, run B to completion, finish A.  The preemption points of A are the first
+// and the last dynamic occurrence of every distinct yield site A executes (every code
+// location of A is preempted at least once), plus evenly spaced points up to -cap.  B is A
+// itself, a call with the same path, a call of the same input family, and an unrelated call.
 func modePreempt() error {
 	start := time.Now()
 	if err := setupPool(); err != nil {
@@ -607,56 +609,88 @@ func modePreempt() error {
 		return err
 	}
 	st := newStats("preempt", *fW)
+	side, err := newSide(*fSide)
+	if err != nil {
+		return err
+	}
 	r := newRNG(mix64(*fSeed ^ 0x93e3))
-	type pr struct{ a, b opKey }
-	var pairs []pr
-	for len(pairs) < *fM {
-		a := pool.ops[r.intn(len(pool.ops))]
-		var b opKey
-		switch len(pairs) % 4 {
-		case 0: // same call
-			b = a
-		case 1: // same path
-			c := pool.byPath[a.Path]
-			b = pool.ops[c[r.intn(len(c))]]
-		case 2: // same text
-			c := pool.byInput[a.Input]
-			b = pool.ops[c[r.intn(len(c))]]
-		default:
-			b = pool.ops[r.intn(len(pool.ops))]
-		}
-		pairs = append(pairs, pr{a, b})
-	}
 	job := 0
-	for _, p := range pairs {
-		n, _ := refs.steps(p.a)
-		n += 2
-		stride := int64(1)
-		if n > int64(*fCap) {
-			stride = (n + int64(*fCap) - 1) / int64(*fCap)
+	distinctSites := 0
+	for ai := 0; ai < *fM; ai++ {
+		// A: classes in rotation
+		cl := pool.byClass[ai%nClasses]
+		if len(cl) == 0 {
+			cl = pool.byClass[clsCorpus]
 		}
-		for i := int64(1); i <= n; i += stride {
-			job++
-			if job%*fOf != *fW {
-				continue
+		a := pool.ops[cl[r.intn(len(cl))]]
+		var bs []opKey
+		bs = append(bs, a)
+		if c := pool.byPath[a.Path]; len(c) > 0 {
+			bs = append(bs, pool.ops[c[r.intn(len(c))]])
+		}
+		if c := pool.byFamily[pool.inputs[a.Input].family]; len(c) > 0 {
+			bs = append(bs, pool.ops[c[r.intn(len(c))]])
+		}
+		bs = append(bs, pool.ops[r.intn(len(pool.ops))])
+		if ai%*fOf != *fW {
+			continue // the PRNG stream is the same in every worker; the work is split by A
+		}
+		tr := soloTrace(a)
+		first := map[uint32]int{}
+		last := map[uint32]int{}
+		for i, sId := range tr {
+			if _, ok := first[sId]; !ok {
+				first[sId] = i
 			}
-			plan := &Plan{Tasks: []TaskPlan{{Ops: []OpPlan{{Key: p.a, Shared: -1}}}, {Ops: []OpPlan{{Key: p.b, Shared: -1}}}}}
-			sc := &Schedule{Segs: []Segment{{0, i}, {1, 1 << 60}, {0, 1 << 60}}}
-			res := execRun(plan, execOpts{lit: sc, refs: refs})
-			st.account(plan, nil, res)
-			st.Strategies["single-preemption-sweep"]++
-			for _, f := range res.Fails {
-				if f.Oracle == "HARNESS" {
-					continue
+			last[sId] = i
+		}
+		distinctSites += len(first)
+		pts := map[int64]bool{}
+		for _, i := range first {
+			pts[int64(i)+2] = true // +1: the operation-boundary yield, +1: switch *at* that yield
+		}
+		for _, i := range last {
+			pts[int64(i)+2] = true
+		}
+		n := int64(len(tr)) + 2
+		if extra := int64(*fCap) - int64(len(pts)); extra > 0 {
+			stride := n/extra + 1
+			for i := int64(1); i <= n; i += stride {
+				pts[i] = true
+			}
+		}
+		var order []int64
+		for p := range pts {
+			order = append(order, p)
+		}
+		sort.Slice(order, func(i, j int) bool { return order[i] < order[j] })
+		for _, b := range bs {
+			for _, i := range order {
+				job++
+				plan := &Plan{Tasks: []TaskPlan{{Ops: []OpPlan{{Key: a, Shared: -1}}}, {Ops: []OpPlan{{Key: b, Shared: -1}}}}}
+				sc := &Schedule{Segs: []Segment{{0, i}, {1, 1 << 60}, {0, 1 << 60}}}
+				res := execRun(plan, execOpts{lit: sc, refs: refs})
+				st.account(plan, nil, res)
+				side.add(int64(1)<<50|int64(ai)<<24|int64(job&0xffffff), res)
+				st.Strategies["single-preemption-sweep"]++
+				for _, f := range res.Fails {
+					if f.Oracle == "HARNESS" {
+						continue
+					}
+					st.addFailure(int64(job), f, []runCase{{plan: plan, sched: sc}}, refs, true)
+					break
 				}
-				st.addFailure(int64(job), f, []runCase{{plan: plan, sched: sc}}, refs, true)
-				break
+				if len(st.Failures) >= *fMaxFail {
+					break
+				}
 			}
-			if len(st.Failures) >= *fMaxFail {
-				break
-			}
+		}
+		if len(st.Failures) >= *fMaxFail {
+			break
 		}
 	}
+	st.Faults["preempt-sweep-distinct-sites"] = distinctSites
+	side.close()
 	st.finish(start)
 	return writeJSON(*fOut, st)
 }
@@ -806,5 +840,3 @@ func indent(s, pre string) string {
 	}
 	return strings.Join(lines, "\n") + "\n"
 }
-
-var _ = sort.Strings
